@@ -45,9 +45,9 @@ prop(
         "Contracts on every digest function of ascmhl/hasher.py (read loops, per-class constructors and format table, hex and "
         "C4 text codecs with loop invariants over spec functions val58/pow58, directory-hash helpers, module wrappers) are "
         "turned into verification conditions from the current source by vf/pyvc.py and discharged by z3 / cvc5; induction "
-        "lemmas have their own obligations (vf/lemmas.py). AggregateHasher.hash_file (read-once multi-format loop) is "
-        "bounded: its contract is used by callers as an assumption and checked at run time on boundary inputs. The bounded "
-        "part also samples the assumed library contracts against hashlib/xxhash test vectors."
+        "lemmas have their own obligations (vf/lemmas.py). AggregateHasher.hash_file (read-once multi-format loop over a dict "
+        "of hashers) is proved as well (per-key invariants, separation of the hasher objects). Only seal_file_path (478 of 498 "
+        "obligations) stays bounded. The bounded part also samples the assumed library contracts against hashlib/xxhash test vectors."
     ),
     assumptions=[
         "hashlib.md5/sha1/sha512 and xxhash.xxh32/xxh64/xxh3_64/xxh3_128 implement the standard algorithms (sampled against published vectors)",
@@ -111,7 +111,9 @@ prop(
         "every path (z3 over strings: no p with (p+'.tmp') ending in .mhl / the chain or collection file name); the single "
         "os.replace onto the final name comes after close, is the last effect and is not in a finally block; commit writes each "
         "history's manifest before its chain entry and children before parents. Hence after any prefix of the trace every file the "
-        "loader opens is a complete old or complete new document."
+        "loader opens is a complete old or complete new document. One obligation is REFUTED on the pinned tree and recorded as a "
+        "finding (known_findings.json, C15-first-generation-interrupted): the ascmhl folder of a NEW history becomes visible before "
+        "its chain file, and the loader refuses such a folder - the property holds for histories with >= 1 committed generation only."
     ),
     assumptions=["os.replace is atomic on POSIX; a killed process loses only its unflushed user-space buffers", "power loss without fsync is outside the statement"],
 )
@@ -136,7 +138,8 @@ def other(pid, text, prover=True, static=False, lemmas=False, assumptions=(), te
 
 other(
     "C02",
-    "Proved: routing of a path to its history (find_history_for_path naming contract), record creation "
+    "Proved: routing of a path to its history (find_history_for_path: the registered history of the NEAREST registered ancestor path, else "
+    "the history itself; _update_child_history_mapping registers every child and every entry of the children's transitive mappings), record creation "
     "(find_or_create_media_hash_for_path: exactly one record per path, indexed, fresh when new), entry append, digest functions (C01). "
     "post_order_lexicographic's per-directory kernel (children = the listed, non-excluded entries, sorted; region contract). "
     "Bounded: the recursion of the traversal generator and the children loop of create_for_folder_subcommand / create_for_single_files_subcommand.",
@@ -155,8 +158,9 @@ other(
     "C04",
     "Proved: find_original / find_first / find_existing_hash_formats (loop invariants over generations and entries, ghost witness "
     "lists), append_file_hash's judgement (original iff never recorded as original, else new / verified / failed against the FIRST "
-    "entry of the format in the pre-state history; result == not failed), _validate_new_hash_list is covered by the bounded part, "
-    "lemmas L_first_excl / L_orig_excl. Bounded: seal_file_path's ordering of calls and the command loops, on all format-subset "
+    "entry of the format in the pre-state history; result == not failed), _validate_new_hash_list, the child-history mapping and "
+    "nearest-ancestor routing, lemmas L_first_excl / L_orig_excl. Bounded: seal_file_path's ordering of calls (478 of 498 obligations "
+    "discharge: not counted) and the command loops, on all format-subset "
     "sequences of length 3 with content kept / altered / restored.",
     assumptions=["the session's new hash lists are disjoint from the loaded history's lists (ownership, structural)"],
 )
@@ -179,8 +183,9 @@ other(
 )
 other(
     "C08",
-    "Proved: find_history_for_path (routing; naming contract used by append_file_hash), commit order obligations (children before "
-    "parents, manifest before chain). Bounded: discovery (_find_and_load_child_histories), references and copied root hashes on all "
+    "Proved: _update_child_history_mapping (every child under its relative path, every entry of a child's mapping under the joined path: "
+    "the mapping reaches descendants at any depth), find_history_for_path (routing to the nearest registered ancestor), one iteration of the "
+    "commit loop (children first, references = the child generations written in this run), commit order obligations. Bounded: discovery (_find_and_load_child_histories), references and copied root hashes on all "
     "placements of nested histories incl. prefix-named siblings and depth-4 chains.",
     static=True,
 )
@@ -198,15 +203,20 @@ other(
     "whenever the model has one incl. 0, modification date, one child per entry in format order carrying digest / action / hash date, "
     "previousPath last), the two chain element builders and the whole content of the chain file (_write_chain_to_file: every loaded entry "
     "unchanged and in order, then exactly one new entry with the C4 of the new manifest's bytes), _ignorespec_xml_element, "
-    "_ascmhlreference_xml_element. Bounded: the event-driven readers (hashlist_xml_parser.parse, chain_xml_parser.parse), "
-    "_directory_hash / _creator_info / _process_info builders, and the lxml serialisation itself - round trip on enumerated model "
+    "_ascmhlreference_xml_element, _directory_hash_xml_element / _root_media_hash_xml_element (content and structure containers always "
+    "present, one child each per entry), _creator_info_xml_element (fixed head, authors in order with exactly their attributes, location, "
+    "comment), _process_info_xml_element, and the manifest body _write_hash_list_to_file (creator info, process info, one element per "
+    "record in record order inside <hashes> - never an empty <hashes> -, one reference per referenced generation). Bounded: the "
+    "event-driven readers (hashlist_xml_parser.parse, chain_xml_parser.parse) and the lxml serialisation itself - round trip on enumerated model "
     "objects and on every manifest of the small worlds, with an independent ElementTree reader.",
     assumptions=["lxml.builder.E / etree.tostring render the infoset faithfully for text without control characters", "None and '' are identified in creator text fields; author name '-' is the reader's sentinel"],
 )
 other(
     "C11",
     "Proved: the structural facts the schema needs from _media_hash_xml_element (path first, one element per entry in ascending format "
-    "order, previousPath last, no attribute without value), chain entries (path, c4, sequencenr), <ignore> children. Bounded: lxml "
+    "order, previousPath last, no attribute without value), <directoryhash> / <roothash> (content and structure always written, in that "
+    "order), <creatorinfo> and <processinfo> child order, <hashes> / <references> only around at least one child, chain entries (path, c4, "
+    "sequencenr), <ignore> children. Bounded: lxml "
     "XMLSchema validation (the XSDs of the current tree) of every manifest / chain / collection file written over all option "
     "combinations, failing and aborted runs, reference-only parents, empty folders. The XSD itself is not compiled into a predicate.",
     assumptions=["lxml.etree.XMLSchema is the validator"],
@@ -241,11 +251,17 @@ other("C16", "Proved: the manifest name carries strftime(now(timezone.utc)) (gro
       assumptions=["datetime / time zone database: naive.astimezone() attaches the offset in force at that local time (fold-aware)"])
 other("C17", "Proved: find_hash_entry_for_format, find_first_hash_entry_for_path (used to match renamed files). Bounded: the rename "
       "matching region of create -dr and the follow-up commands on all sets of simultaneous renames / moves.")
-other("C18", "Proved: append_file_hash with an action override (the entry carries exactly the given action), find_or_create_media_hash_for_path "
-      "(one record per path). Bounded: the merge loops of flatten_history and verify -pl.")
+other("C18", "Proved: one iteration of the merge loop of flatten_history as a region contract, for an arbitrary recorded entry and arbitrary "
+      "contents of the collection so far - a failed entry is never copied; an entry is copied (format, digest, action unchanged) exactly if "
+      "the collection's record for the path has no entry of that format yet, so the earliest entry that did not fail is the one kept and it "
+      "is the only one of its format; otherwise the record keeps its entries; append_file_hash with an action override, "
+      "find_or_create_media_hash_for_path (one record per path). Bounded: the enclosing loops of flatten_history, the writer's choice of "
+      "external manifest, and verify -pl.")
 other("C19", "Proved: log_child_histories (non-verbose): exactly one line per generation of the history, in list order, carrying its number and "
       "creation date, directly after what was printed before, followed by the sections of the child histories (recursive contract over the "
-      "predicate hist_ok). Bounded: info_for_single_file, the upward search of info and click's output plumbing - info / info -sf output "
+      "predicate hist_ok); one iteration of the generation loop of info_for_single_file (non-verbose): a generation without a record for the "
+      "path prints nothing, otherwise one line per recorded digest in entry order with generation number, creation date, format, digest "
+      "and action as recorded. Bounded: the verbose branch, the upward search of info and click's output plumbing - info / info -sf output "
       "against the manifests read independently; no-history exit code.")
 other("C20", "Proved (main-thread side, under the rely condition that the checker thread writes latest_version once, None -> Version): "
       "Updater.needs_update raises nothing and returns a bool for every interleaving of that write with its four reads (volatile-field "
